@@ -184,13 +184,41 @@ EvalFltBranch(p, a, b) ==
       second == IF p.pres.flip THEN p.thenE ELSE p.elseE
   IN IF c THEN EvalE(first, a, b, p.pres) ELSE EvalE(second, a, b, p.pres)
 
+\* "orand":  if (a CMP 0 && b CMP 0) || (a < -2 && b < -2) { return T } else { return E }
+\* (a compound condition: both arms of the decision are JOIN points of several conditional branches)
+EvalOrAnd(p, a, b) ==
+  IF (Cmp(p.cmp, a, 0) /\ Cmp(p.cmp, b, 0)) \/ (a < -2 /\ b < -2)
+  THEN EvalE(p.thenE, a, b, p.pres) ELSE EvalE(p.elseE, a, b, p.pres)
+
+\* "switch2":  switch a { case 0, 1: return T; case 2, 5: return E; default: return SMALL }
+EvalSwitch2(p, a, b) ==
+  IF a \in {0, 1} THEN EvalE(p.thenE, a, b, p.pres)
+  ELSE IF a \in {2, 5} THEN EvalE(p.elseE, a, b, p.pres) ELSE Val(p.small)
+
+\* "ubig":  if uint64(a) > K { return b + 1 }; return b + SMALL      (unsigned 64-bit literals near 2^64)
+\* K is symbolic: "max" = 2^64-1, "max7" = 2^64-8, "hi16" = 2^64-65536, "mid" = 2^63.  uint64(a) of a
+\* negative a is 2^64 + a, so only distances below 2^64 are needed (TLC integers are 32 bit).
+UDist(k) == CASE k = "max" -> 1 [] k = "max7" -> 8 [] k = "hi16" -> 65536 [] OTHER -> 1000000000
+EvalUBig(p, a, b) == IF a < 0 /\ (-a) < UDist(p.k) THEN Val(b + 1) ELSE Val(b + p.small)
+
+\* "consttype":  return kind(TY(1)) + b     (kind: a type switch on the dynamic type; TY a sized integer type)
+EvalConstType(p, a, b) == Val((CASE p.ty = "int32" -> 1 [] p.ty = "int64" -> 2 [] OTHER -> 3) + b)
+
+\* "sibloops":  i := 0; for ; i < clamp(a); i++ {}; j := 0; for ; j < clamp(b); j++ {}; return RET(i, j)
+\* (two SIBLING loops whose counters are used after the loops)
+EvalSibLoops(p, a, b) == LET i == Clamp(a) j == Clamp(b) IN
+  Val(CASE p.ret = "i-j" -> i - j [] p.ret = "j-i" -> j - i [] p.ret = "i+j" -> i + j [] OTHER -> i * 2 + j)
+
 \* "extract":  x, y := dm(a, b)   (dm returns a+b, a-b);  return SEL*2 + SMALL   (a multi-value call: which result is used)
 EvalExtract(p, a, b) == Val((IF p.sel = "x" THEN a + b ELSE a - b) * 2 + p.small)
 
 Eval(p, a, b) ==
   CASE p.tpl = "branch" -> EvalBranch(p, a, b)
     [] p.tpl = "sharedcmp" -> EvalSharedCmp(p, a, b) [] p.tpl = "fltbranch" -> EvalFltBranch(p, a, b)
-    [] p.tpl = "extract" -> EvalExtract(p, a, b) [] p.tpl = "loop" -> EvalLoop(p, a, b)
+    [] p.tpl = "extract" -> EvalExtract(p, a, b)
+    [] p.tpl = "ubig" -> EvalUBig(p, a, b) [] p.tpl = "consttype" -> EvalConstType(p, a, b)
+    [] p.tpl = "sibloops" -> EvalSibLoops(p, a, b)
+    [] p.tpl = "orand" -> EvalOrAnd(p, a, b) [] p.tpl = "switch2" -> EvalSwitch2(p, a, b) [] p.tpl = "loop" -> EvalLoop(p, a, b)
     [] p.tpl = "bigconst" -> EvalBigConst(p, a, b)
     [] p.tpl = "loopbranch" -> EvalLoopBranch(p, a, b) [] p.tpl = "rangebranch" -> EvalRangeBranch(p, a, b) [] p.tpl = "strbranch" -> EvalStrBranch(p, a, b)
     [] p.tpl = "nested" -> EvalNested(p, a, b) [] p.tpl = "straight" -> EvalStraight(p, a, b)
@@ -214,23 +242,30 @@ Closure == [tpl : {"closure"}, op : Ops, op2 : {"+", "-", "*"}, pres : {Plain}]
 LoopBranch == [tpl : {"loopbranch"}, cmp : Cmps, rhs : {"b", "k"}, thenOp : {"+", "-"}, elseOp : {"+", "-"}, pres : {Plain}]
 RangeBranch == [tpl : {"rangebranch"}, cmp : Cmps, rhs : {"b", "k"}, thenOp : {"+", "-"}, elseOp : {"+", "-"}, pres : {Plain}]
 StrBranch == [tpl : {"strbranch"}, cmp : Cmps, lit : {2, 3}, elseE : {"b", "7"}, pres : {Plain}]
-BigConst == [tpl : {"bigconst"}, k1 : {1000, 2000}, k2 : {100000, 50000}, small : {3, 5}, pres : {Plain}]
+BigConst == [tpl : {"bigconst"}, k1 : {1000, 2000, 17, -1000}, k2 : {100000, 50000}, small : {3, 5}, pres : {Plain}]
+UBig == [tpl : {"ubig"}, k : {"max", "max7", "hi16", "mid"}, small : {3, 5}, pres : {Plain}]
+ConstType == [tpl : {"consttype"}, ty : {"int32", "int64", "uint8"}, pres : {Plain}]
+SibLoops == [tpl : {"sibloops"}, ret : {"i-j", "j-i", "i+j", "i*2+j"}, pres : {Plain}]
 
 SharedCmp == [tpl : {"sharedcmp"}, cmp : Cmps, rhs : {"b", "k"}, thenE : SExprs, elseE : SExprs, pres : {Plain}]
 FltBranch == [tpl : {"fltbranch"}, cmp : Cmps, thenE : SExprs, elseE : SExprs, pres : {Plain}]
+OrAnd == [tpl : {"orand"}, cmp : {">", ">="}, thenE : SExprs, elseE : SExprs, pres : {Plain}]
+Switch2 == [tpl : {"switch2"}, small : {3, 5}, thenE : SExprs, elseE : SExprs, pres : {Plain}]
 Extract == [tpl : {"extract"}, sel : {"x", "y"}, small : {3, 5}, pres : {Plain}]
 
 Holes(p) == DOMAIN p \ {"tpl", "pres"}
 \* the values a hole may take (for one-hole edits)
 Alt(p, h) ==
-  CASE h \in {"cmp"} -> IF p.tpl = "loop" THEN {"<", "<="} ELSE Cmps
+  CASE h \in {"cmp"} -> IF p.tpl = "loop" THEN {"<", "<="} ELSE IF p.tpl = "orand" THEN {">", ">="} ELSE Cmps
     [] h \in {"lhs", "bound", "outer"} -> {"a", "b"}
     [] h = "rhs" -> IF p.tpl \in {"loopbranch", "rangebranch", "sharedcmp"} THEN {"b", "k"} ELSE {"a", "b", "k"}
     [] h = "sel" -> {"x", "y"}
     [] h \in {"thenOp", "elseOp"} -> {"+", "-"}
     [] h = "lit" -> {2, 3}
-    [] h \in {"thenE", "elseE"} -> IF p.tpl = "strbranch" THEN {"b", "7"} ELSE IF p.tpl \in {"sharedcmp", "fltbranch"} THEN SExprs ELSE Exprs
-    [] h = "k1" -> {1000, 2000} [] h = "k2" -> {100000, 50000} [] h = "small" -> {3, 5}
+    [] h \in {"thenE", "elseE"} -> IF p.tpl = "strbranch" THEN {"b", "7"} ELSE IF p.tpl \in {"sharedcmp", "fltbranch", "orand", "switch2"} THEN SExprs ELSE Exprs
+    [] h = "k1" -> {1000, 2000, 17, -1000} [] h = "k" -> {"max", "max7", "hi16", "mid"}
+    [] h = "ty" -> {"int32", "int64", "uint8"} [] h = "ret" -> {"i-j", "j-i", "i+j", "i*2+j"}
+    [] h = "k2" -> {100000, 50000} [] h = "small" -> {3, 5}
     [] h = "start" -> {0, 1} [] h = "step" -> {1, 2} [] h = "d" -> {1, 2} [] h = "c0" -> {0, 1}
     [] h = "acc" -> {"+", "*", "-"}
     [] h = "f" -> IF p.tpl = "loop" THEN {"i", "i*2", "i+b", "i-b", "a"} ELSE Callees
@@ -244,7 +279,8 @@ SmallQ == <<-3, -1, 0, 1, 2, 5>>
 CallQ == <<-1, 0, 5, 130, 2100>>
 Pairs(xs, ys) == [k \in 1..(Len(xs) * Len(ys)) |-> <<xs[((k - 1) \div Len(ys)) + 1], ys[((k - 1) % Len(ys)) + 1]>>]
 InSeq(p) == CASE p.tpl = "call" -> Pairs(CallQ, CallQ)
-              [] p.tpl = "bigconst" -> Pairs(<<0, 1500, 2500>>, <<0, 7>>)
+              [] p.tpl = "bigconst" -> Pairs(<<-2000, -500, 0, 18, 1500, 2500>>, <<0, 7>>)
+              [] p.tpl = "ubig" -> Pairs(<<-70000, -9, -3, -1, 0, 5>>, <<0, 7>>)
               [] OTHER -> Pairs(SmallQ, SmallQ)
 InputsOf(p) == {InSeq(p)[k] : k \in DOMAIN InSeq(p)}
 SameBehaviour(p, q) == \A in \in InputsOf(p) : Eval(p, in[1], in[2]) = Eval(q, in[1], in[2])
